@@ -1,12 +1,128 @@
-(* C18 -- Adjustment sets are exactly the back-door admissible sets. *)
-From Coq Require Import List Arith Bool NArith.
-From Zepid Require Import Model.Dag Proofs.DagExhaustive Proofs.DagProofs.
+(* C18 -- Adjustment sets are exactly the back-door admissible sets.
+   Only the property theorems (closed by `exact`), non-vacuity examples and Print Assumptions.
+   Model: Model/Dag.v (graph = node list + arrow list in insertion order; programs of add_arrow / add_arrows /
+   add_from_networkx; valid_alg = _check_valid_adjustment_set_ with the repaired, order-independent moralisation;
+   valid_old = the loop as shipped).  valid_spec = no descendant of the exposure in Z and no active walk between
+   exposure and outcome in the graph without the exposure's out-arrows. *)
+From Coq Require Import List Arith Bool NArith Relations.
+From Zepid Require Import Model.Dag Proofs.DagProofs Proofs.DagExhaustive Proofs.DagCorollaries.
 Import ListNotations.
 
+(* ---- unbounded: any number of nodes, any program, any candidate set *)
+Theorem C18_adjustment_sets_exact : forall (x y : nat) (p : list op) (Z : list nat),
+  let g := run_prog x y p in
+  In Z (adjustment_sets g x y) <-> In Z (candidates g x y) /\ valid_spec g x y Z.
+Proof. exact adjustment_sets_exact_prog. Qed.
+
+Theorem C18_alg_sound : forall g x y Z, wf g -> In x (nodes g) -> In y (nodes g) -> ~ In y Z ->
+  valid_alg g x y Z = true -> valid_spec g x y Z.
+Proof. exact alg_sound. Qed.
+
+Theorem C18_alg_complete : forall g x y Z, wf g -> In x (nodes g) -> In y (nodes g) -> ~ In y Z ->
+  valid_spec g x y Z -> valid_alg g x y Z = true.
+Proof. exact alg_complete. Qed.
+
+(* the candidates are sub-lists of the nodes other than exposure and outcome, and every such sub-list is one *)
+Theorem C18_candidates_sound : forall g x y Z, In Z (candidates g x y) -> incl Z (nodes g) /\ ~ In x Z /\ ~ In y Z.
+Proof. exact candidates_ok. Qed.
+Theorem C18_candidates_complete : forall g x y s,
+  subseq s (filter (fun v => negb (v =? x) && negb (v =? y)) (nodes g)) -> In s (candidates g x y).
+Proof. exact candidates_complete. Qed.
+
+(* the specification evaluated by the check run (closure over walk states) is the Prop-level specification *)
+Theorem C18_executable_spec_reflects : forall g x y Z, wf g -> (valid_specb g x y Z = true <-> valid_spec g x y Z).
+Proof. exact specb_reflects_spec. Qed.
+
+Theorem C18_minimal_are_smallest : forall g x y s,
+  In s (minimal_adjustment_sets g x y) <->
+  In s (adjustment_sets g x y) /\ forall t, In t (adjustment_sets g x y) -> length s <= length t.
+Proof. exact minimal_sets_exact. Qed.
+
+(* ---- arrows that would create a cycle are rejected and leave the graph unchanged *)
+Theorem C18_add_arrow_cycle_unchanged : forall x y g o, apply_op x y g o = None -> step_op x y g o = g.
+Proof. exact add_arrow_cycle_unchanged. Qed.
+
+Theorem C18_add_arrow_rejects_iff_cycle : forall g u v, wf g -> acyclic g ->
+  (add_arrow g u v = None <-> clos_refl_trans nat (Edge g) v u).
+Proof. exact add_arrow_rejects_iff_cycle. Qed.
+
+Theorem C18_add_arrow_keeps_dag : forall g u v g', wf g -> add_arrow g u v = Some g' ->
+  wf g' /\ acyclic g' /\ (forall a b, In (a, b) (edges g') <-> In (a, b) (edges g) \/ (a, b) = (u, v)).
+Proof. exact add_arrow_keeps_dag. Qed.
+
+Theorem C18_add_arrows_keeps_dag : forall g ps g', wf g -> add_arrows g ps = Some g' ->
+  wf g' /\ acyclic g' /\ (forall a b, In (a, b) (edges g') <-> In (a, b) (edges g) \/ In (a, b) ps).
+Proof. exact add_arrows_keeps_dag. Qed.
+
+Theorem C18_programs_keep_dag : forall x y p, x <> y ->
+  wf (run_prog x y p) /\ acyclic (run_prog x y p) /\ In x (nodes (run_prog x y p)) /\ In y (nodes (run_prog x y p)).
+Proof.
+  exact (fun x y p H => conj (@run_prog_wf x y p) (conj (@run_prog_acyclic x y p H) (run_prog_nodes x y p))).
+Qed.
+
+(* ---- bounded, by computation: all 19683 orientation vectors (8816 DAGs) on 5 nodes x all candidate sets *)
 Theorem C18_alg_eq_spec_upto5 : forall os, In os all_orient5 -> is_dag (graph5 os) = true ->
   forall Z, In Z (candidates (graph5 os) 0 1) ->
     valid_alg (graph5 os) 0 1 Z = valid_specb (graph5 os) 0 1 Z /\
     valid_pathb (graph5 os) 0 1 Z = valid_specb (graph5 os) 0 1 Z.
 Proof. exact alg_eq_spec_upto5. Qed.
 
+Theorem C18_orientations_complete : forall os, length os = 9 -> Forall (fun o => o < 3) os -> In os all_orient5.
+Proof. exact (orient_vectors_complete 9). Qed.
+
+(* the textbook path-by-path criterion agrees with the active-walk specification on that universe *)
+Theorem C18_path_spec_upto5 : forall os Z, In os all_orient5 -> is_dag (graph5 os) = true ->
+  In Z (candidates (graph5 os) 0 1) ->
+  (valid_pathb (graph5 os) 0 1 Z = true <-> valid_spec (graph5 os) 0 1 Z).
+Proof. exact path_spec_upto5. Qed.
+
+(* ---- design defect D8: the moralisation loop as shipped loses admissible sets *)
+Theorem C18_old_moralisation_refuted :
+  exists (p : list op) (Z : list nat),
+    let g := run_prog 0 1 p in
+    acyclic g /\ In Z (candidates g 0 1) /\ valid_spec g 0 1 Z /\ valid_old g 0 1 Z = false.
+Proof. exact old_moralisation_refuted_spec. Qed.
+
+Theorem C18_old_moralisation_upto5 :
+  (forallb (fun os => fst (old_stat os)) all_orient5,
+   N.of_nat (length (filter (fun os => snd (old_stat os)) all_orient5))) = (true, 22%N).
+Proof. exact old_moralisation_upto5. Qed.
+
+(* ---- non-vacuity: M-bias with a direct effect  A -> X, A -> B <- C, C -> Y, X -> Y  built by a program that
+   also contains a rejected (cycle-closing) arrow *)
+Example C18_nonvacuous :
+  let p := [AddArrows [(2, 0); (2, 3); (4, 3)]; AddArrow 1 2; AddArrow 4 1] in
+  let g := run_prog 0 1 p in
+  is_dag g = true /\ apply_op 0 1 (run_prog 0 1 [AddArrows [(2, 0); (2, 3); (4, 3)]]) (AddArrow 1 2) = None /\
+  nodes g = [0; 1; 2; 3; 4] /\
+  adjustment_sets g 0 1 = [[]; [2]; [4]; [2; 3]; [2; 4]; [3; 4]; [2; 3; 4]] /\
+  spec_sets g 0 1 = adjustment_sets g 0 1 /\ ~ In [3] (adjustment_sets g 0 1) /\
+  minimal_adjustment_sets g 0 1 = [[]] /\ length (candidates g 0 1) = 8.
+Proof. vm_compute. repeat split; try reflexivity. intros H; repeat (destruct H as [H | H]; [discriminate|]); exact H. Qed.
+
+Example C18_nonvacuous_spec :
+  let g := run_prog 0 1 [AddArrows [(2, 0); (2, 3); (4, 3); (4, 1)]] in
+  wf g /\ acyclic g /\ valid_spec g 0 1 [2] /\ ~ valid_spec g 0 1 [3].
+Proof.
+  cbv zeta. split; [apply run_prog_wf|]. split; [apply run_prog_acyclic; discriminate|]. split.
+  - apply specb_reflects_spec; [apply run_prog_wf | vm_compute; reflexivity].
+  - intros H. apply specb_reflects_spec in H; [|apply run_prog_wf]. vm_compute in H. discriminate.
+Qed.
+
+Print Assumptions C18_adjustment_sets_exact.
+Print Assumptions C18_alg_sound.
+Print Assumptions C18_alg_complete.
+Print Assumptions C18_candidates_sound.
+Print Assumptions C18_candidates_complete.
+Print Assumptions C18_executable_spec_reflects.
+Print Assumptions C18_minimal_are_smallest.
+Print Assumptions C18_add_arrow_cycle_unchanged.
+Print Assumptions C18_add_arrow_rejects_iff_cycle.
+Print Assumptions C18_add_arrow_keeps_dag.
+Print Assumptions C18_add_arrows_keeps_dag.
+Print Assumptions C18_programs_keep_dag.
 Print Assumptions C18_alg_eq_spec_upto5.
+Print Assumptions C18_orientations_complete.
+Print Assumptions C18_path_spec_upto5.
+Print Assumptions C18_old_moralisation_refuted.
+Print Assumptions C18_old_moralisation_upto5.
